@@ -51,12 +51,17 @@ def verify(src, seed_id, prop):
         os.makedirs(os.path.join(wt, "tests"), exist_ok=True)
         shutil.copy(os.path.join(src, "demo.rs"), os.path.join(wt, "tests", "demo_seed.rs"))
         rc, out = sh("cargo test --offline --test demo_seed", cwd=wt)
+        flag = ""
+        if rc == 0:
+            # a change that only shows in the release profile (no overflow checks / debug assertions)
+            rc, out = sh("cargo test --offline --release --test demo_seed", cwd=wt)
+            flag = " --release"
         good = rc != 0
-        ran.append({"step": "demo with change (must fail)", "rc": rc, "as_expected": good, "tail": out[-400:]})
-        print("%-38s rc=%d %s" % ("demo with change (must fail)", rc, "ok" if good else "UNEXPECTED"))
+        ran.append({"step": "demo with change (must fail)" + flag, "rc": rc, "as_expected": good, "tail": out[-400:]})
+        print("%-38s rc=%d %s" % ("demo with change (must fail)" + flag, rc, "ok" if good else "UNEXPECTED"))
         ok = ok and good
         step("revert change", "git checkout -- src", True)
-        rc, out = sh("cargo test --offline --test demo_seed", cwd=wt)
+        rc, out = sh("cargo test --offline%s --test demo_seed" % flag, cwd=wt)
         good = rc == 0
         ran.append({"step": "demo without change (must pass)", "rc": rc, "as_expected": good, "tail": out[-400:]})
         print("%-38s rc=%d %s" % ("demo without change (must pass)", rc, "ok" if good else "UNEXPECTED"))
